@@ -2,6 +2,7 @@ package main
 
 import (
 	"bytes"
+	"crypto/md5"
 	"encoding/hex"
 	"fmt"
 	"io"
@@ -108,6 +109,30 @@ func (s *Sess) apiGet(b, k string, head bool) {
 		name = "head"
 	}
 	s.emitOp(name, []string{hs(b), hs(k), "-"}, obsT{r: r})
+}
+
+// heldRead: an object is what it was when it was opened. A reader that holds the result of GetObject
+// (size, hash, metadata and a body stream; the HTTP handler streams the same way after the backend
+// call has returned) while the key is overwritten reads the bytes its size and hash describe.
+func (s *Sess) heldRead(b, k string, next []byte) {
+	if s.st.Ext != nil || s.st.Backend == nil {
+		return
+	}
+	o, err := s.st.Backend.GetObject(b, k, nil)
+	if err != nil {
+		return
+	}
+	s.Put(b, k, next, nil) // acknowledged while the first read is still open
+	got, rerr := io.ReadAll(o.Contents)
+	o.Contents.Close()
+	sum := md5.Sum(got)
+	msg := fmt.Sprintf("%s: object %q opened (size %d, hash %x), overwritten with %d other bytes, then read: %d bytes with digest %x (read error: %v)", s.kind, k, o.Size, o.Hash, len(next), len(got), sum, rerr)
+	if rerr == nil && int64(len(got)) == o.Size && bytes.Equal(sum[:], o.Hash) {
+		emit(s.prop, "GOOD", hs(msg))
+	} else {
+		emit(s.prop, "BAD", hs("S:body-differs-from-the-entity-it-was-opened-as "+msg))
+	}
+	s.Get(b, k, "")
 }
 
 func runC01(tier string, seed uint64) {
@@ -234,6 +259,13 @@ func runC01(tier string, seed uint64) {
 					s.Get(b, k, "")
 				}
 				nontrivial(fmt.Sprint(kind, noInt, "twins", gi))
+			}
+			// a read that is still open while its key is overwritten (bodies above and below the copy buffer)
+			for hi, sz := range []int{10, 70000} {
+				hk := fmt.Sprintf("held/%d", hi)
+				s.Put(b, hk, rng.Bytes(sz), []KV{{"X-Amz-Meta-Held", "1"}})
+				s.heldRead(b, hk, rng.Bytes(sz/2+3))
+				s.heldRead(b, hk, rng.Bytes(sz+5))
 			}
 			// later operations on other keys leave the answer unchanged
 			s.Put(b, "other", []byte("x"), nil)
